@@ -52,6 +52,13 @@ func GoStringN(p *int8, n int) string {
 	return string((*[1 << 30]byte)(unsafe.Pointer(p))[:n:n])
 }
 
+// GoBytes returns a copy of the n bytes at p: the C memory may be changed or
+// freed afterwards, and writes to the slice do not reach it.
 func GoBytes(p *int8, n int) []byte {
-	return (*[1 << 30]byte)(unsafe.Pointer(p))[:n:n]
+	if n <= 0 {
+		return []byte{}
+	}
+	b := make([]byte, n)
+	c.Memcpy(unsafe.Pointer(&b[0]), unsafe.Pointer(p), uintptr(n))
+	return b
 }
